@@ -354,7 +354,7 @@ class Session:
                                 saved[k_.strip()] = float(v_)
                         est_ = r.get_beta_values()
                         for k_, v_ in est_.items():
-                            if k_ not in saved or abs(saved[k_] - float(v_)) > 1e-9 * max(1.0, abs(float(v_))):
+                            if k_ not in saved or abs(saved[k_] - float(v_)) > 1e-4 * max(1.0, abs(float(v_))):
                                 ctx.fail('I03.saved', f'saved iteration file {fn} holds {k_} = {saved.get(k_)!r}, the estimate '
                                                       f'of {k_} is {float(v_)!r}')
                         ctx.probe('saved iteration file compared by name')
